@@ -9,7 +9,7 @@ _ASSUME = ['UBSan alignment and vptr checks are off (calc_chksum reads unaligned
 
 
 def _p(name, schema, q, t, **kw):
-    d = dict(name=name, harness='c03_total', variant='san', hang_s=300,    # real hangs are caught by the harness' own CPU-time watchdog (2 s per case); this one only guards against a stalled process
+    d = dict(name=name, harness='c03_total', variant='san', hang_s=1200,    # real hangs are caught by the harness' own CPU-time watchdog (2 s per case); this one only guards against a stalled process
 
              quick=dict(args=['schema=' + schema] + q[0], deadline=q[1]),
              thorough=dict(args=['schema=' + schema] + t[0], deadline=t[1]))
